@@ -146,6 +146,27 @@ func suiteResource(r *Rng, n int, thorough bool, o *Out) {
 				rd := map[string][]string{"t": sortedKeys(typ.Rels)}
 				guard(func() { _ = jsonapi.MarshalResource(soft.Copy(), "", fieldsIndep(typ), rd) })
 				guard(func() { _ = jsonapi.MarshalResource(wr.Copy(), "", fieldsIndep(typ), rd) })
+				// ... and the bytes read from a second copy are overwritten in place, and
+				// replaced through the pointer where the attribute is a pointer
+				scribble := func(cp jsonapi.Resource) {
+					for _, an := range sortedKeys(typ.Attrs) {
+						switch b := cp.Get(an).(type) {
+						case []byte:
+							for i := range b {
+								b[i] ^= 0xff
+							}
+						case *[]byte:
+							if b != nil {
+								for i := range *b {
+									(*b)[i] ^= 0xff
+								}
+								*b = append(*b, 'x')
+							}
+						}
+					}
+				}
+				guard(func() { scribble(soft.Copy()) })
+				guard(func() { scribble(wr.Copy()) })
 				o.stat("set.then-copy-marshaled")
 			}
 			pv := verdict()
